@@ -8,6 +8,7 @@
 #include <igris/shell/readline.h>
 #include <igris/container/sline.h>
 
+#include <functional>
 #include <memory>
 #include <string>
 
@@ -135,7 +136,9 @@ namespace
             else if (l[n] != 0) { bad_exec = true; bad_msg = "line passed to execute is not NUL terminated at its length"; }
             executed.push_back(std::string(l, n));
             exec_len.push_back(n);
+            if (exec_hook) exec_hook(executed.back());
         }
+        std::function<void(const std::string &)> exec_hook;
         void on_signal(int sig) override { if (sig == 2) sigints++; else { bad_exec = true; bad_msg = "signal " + std::to_string(sig) + " raised (expected SIGINT=2)"; } }
     };
 
@@ -156,7 +159,7 @@ namespace
             if (big) cap = (int)r.range(258, 340);
             // prompt variant and echo switch (echo off: only the executed lines and the bounds can be checked)
             // cfg[4]: bit 0 no signal callback registered (1 run in 6); bits 1..2 what the caller-supplied storage held before init
-            p.cfg = {cap, H, r.chance(2, 3) ? 0 : (int64_t)r.range(1, 3), r.chance(1, 8) ? 0 : 1, (int64_t)((r.chance(1, 6) ? 1 : 0) | (r.below(4) << 1))};
+            p.cfg = {cap, H, r.chance(2, 3) ? 0 : (int64_t)r.range(1, 3), r.chance(1, 8) ? 0 : 1, (int64_t)((r.chance(1, 6) ? 1 : 0) | (r.below(4) << 1) | (r.chance(1, 4) ? 8 : 0))}; // bit 3: the execute callback switches the echo for some lines
             int n = (int)r.range(4, tier == THOROUGH ? 200 : 120);
             int style = (int)r.below(3); // 0 mixed, 1 edit-heavy, 2 history-heavy
             for (int i = 0; i < n; i++)
@@ -205,11 +208,27 @@ namespace
             bool echo = mod(p.c(3, 1), 2) != 0;
             if (!echo) probe("echo_off");
             if (PROMPT != "$ ") probe("other_prompt");
-            const unsigned flags = (unsigned)mod(p.c(4, 0), 8);
+            const unsigned flags = (unsigned)mod(p.c(4, 0), 16);
             const bool no_sig = (flags & 1) != 0;
             if (no_sig) probe("no_signal_callback");
             if (flags >> 1) probe("dirty_storage_before_init");
             term->start((unsigned)cap, (unsigned)H, &sink, PROMPTS[mod(p.c(2), 4)], echo, flags);
+            uint64_t quiet_base = 0; // bytes written before the echo was (last) switched off: nothing may be added while it is off
+            if (flags & 8)
+                sink.exec_hook = [&](const std::string &l) {
+                    // a login / password dialogue: the command handler switches the echo for the next line
+                    if (l.size() % 3 != 1) return;
+                    echo = !echo;
+                    term->set_echo(echo);
+                    if (echo)
+                    {
+                        Screen fresh;
+                        fresh.strict = sink.scr.strict;
+                        sink.scr = fresh; // what the row shows after the silent period is not specified: start from a clean row
+                    }
+                    else quiet_base = sink.echo_bytes;
+                    probe("echo_switched_by_callback");
+                };
             int last_byte = -1;          // last byte delivered (for the CR-LF / LF-CR pairing rule)
             bool last_nl_fired = false;  // that byte was a line-end byte that produced a line end
             size_t n_exec_expected = 0;
@@ -253,7 +272,7 @@ namespace
             auto check_screen = [&](const char *when) {
                 if (!echo)
                 {
-                    if (sink.echo_bytes != 0) violate("C15/echo-off", "%s: %llu bytes were written to the terminal although echo is switched off", when, (unsigned long long)sink.echo_bytes);
+                    if (sink.echo_bytes != quiet_base) violate("C15/echo-off", "%s: %llu bytes were written to the terminal although echo is switched off", when, (unsigned long long)(sink.echo_bytes - quiet_base));
                     return;
                 }
                 std::string shown = sink.scr.shown();
@@ -307,6 +326,7 @@ namespace
                     bool strict = sink.scr.strict;
                     sink.scr = Screen();
                     sink.scr.strict = strict;
+                    if (!echo) quiet_base = sink.echo_bytes;
                     term->start((unsigned)cap, (unsigned)H, &sink, PROMPTS[mod(p.c(2), 4)], echo, flags);
                     last_byte = -1;
                     last_nl_fired = false;
